@@ -474,13 +474,25 @@ def c14_e(ctx: Ctx):
                             out.append(ctx.inc(R, ms, n, f"{flag}: strategy {canon(v)[:50]}", construct=k))
     for q in ("signac.sync:sync_jobs", "signac.sync:sync_projects"):
         fi = ctx.fn(q)
-        for n in body_nodes(fi):
-            if isinstance(n, ast.If) and "doc_sync" in canon(n.test) and "NO_SYNC" in canon(n.test):
-                t = canon(n.test).replace(" ", "")
-                if t == "doc_syncnotin(DocSync.NO_SYNC,DocSync.COPY)":
-                    out.append(ctx.ok(R, fi, n, "documents are merged only if doc_sync is neither NO_SYNC nor COPY"))
-                else:
-                    out.append(ctx.inc(R, fi, n, "doc_sync gate has an unrecognised shape: " + t[:60]))
+        # the merge application: a call of the doc_sync parameter itself; on every path to it both sentinels have been excluded
+        dsp = "doc_sync" if "doc_sync" in fi.params else None
+        apps = [c for c in body_nodes(fi) if isinstance(c, ast.Call) and isinstance(c.func, ast.Name) and c.func.id == dsp] if dsp else []
+        if not apps:
+            out.append(ctx.inc(R, fi, fi.node, "no application of the doc_sync strategy found", construct=q + "|doc-sync-gate"))
+        for c in apps:
+            facts = common.expand_facts(ctx, fi, common.facts_at(ctx, fi, c, "n"))
+            excluded = set()
+            for (t, pol) in facts:
+                tt = t.replace(" ", "")
+                for nm in ("NO_SYNC", "COPY"):
+                    if not pol and (tt.startswith(f"{dsp}in(") and f"DocSync.{nm}" in tt or tt in (f"{dsp}==DocSync.{nm}", f"{dsp}isDocSync.{nm}")):
+                        excluded.add(nm)
+            if excluded == {"NO_SYNC", "COPY"}:
+                out.append(ctx.ok(R, fi, c, "documents are merged only if doc_sync is neither NO_SYNC nor COPY", construct=q + "|doc-sync-gate"))
+            else:
+                miss = sorted({"NO_SYNC", "COPY"} - excluded)
+                out.append(ctx.viol(R, fi, c, f"the document strategy is applied on a path where doc_sync may be DocSync.{' / DocSync.'.join(miss)}: the sentinel (False / 'copy') is called "
+                                    "instead of meaning 'leave the documents alone' / 'copy the file'", construct=q + "|doc-sync-gate"))
     return out
 
 
